@@ -36,12 +36,14 @@ def value_for(name: str, choice: dict):
     """Value of a symbolic input under the finite choice (per base name; tagged names like `M<...>` get derived values)."""
     base = name.split("<")[0]
     salt = "" if base == name else name
+    # the diagram parsed from another path: other names (one mark per distinct path term)
+    mark = "" if not salt else "'" if salt[len(base):] == "<PATH2>" else "'" + str(_h(salt[len(base):]) % 89)
     if base == "M":
         ms = choice["M"]
-        return ms if not salt else frozenset(x + "'" for x in ms)
+        return ms if not salt else frozenset(x + mark for x in ms)
     if base == "D":
         d = choice["D"]
-        return d if not salt else {k + "'": frozenset(x + "'" for x in v) for k, v in d.items()}
+        return d if not salt else {k + mark: frozenset(x + mark for x in v) for k, v in d.items()}
     if base == "FLAG":
         return choice["FLAG"]
     if base == "P":
@@ -109,6 +111,8 @@ class Interp:
             return value_for(t[1], self.choice)
         if tag == "const":
             return t[1]
+        if tag in ("class", "func", "builtin", "ext"):
+            return ("tok", f"{tag} {t[1]}")  # a named thing of the program: itself
         if tag == "var":
             if t not in env:
                 raise Cannot("unbound variable")
@@ -118,7 +122,13 @@ class Interp:
         if tag in ("pair", "pairacc"):
             return ("pair", self.freeze(self.val(t[1], env)), self.freeze(self.val(t[2], env)))
         if tag == "idx":
-            return ("position", self.freeze(self.val(t[1], env)))  # the model lists have no duplicates: one position per element
+            x = self.freeze(self.val(t[1], env))
+            if len(t) > 3 and t[3] is not None:
+                # position of the element in the enumerated sequence (every sequence over a model set is in the model's one order)
+                seq = [self.freeze(y) for y in self.iterate(self.val(t[3], env) if t[3][0] != "bag" else self.bag(t[3], env, multiset=False))]
+                if x in seq:
+                    return seq.index(x)
+            return ("position", x)  # the model lists have no duplicates: one position per element
         if tag == "dictview":
             # a dict filled by `d[k] = v` stores: a later store to an equal key replaces the earlier one
             store: dict = {}
@@ -184,7 +194,17 @@ class Interp:
             lo, hi, step = (self.val(x, env) for x in t[2:5])
             if lo in (None, 0) and hi is None and step in (None, 1):
                 return v
-            return ("slice", self.freeze(v), lo, hi, step)  # an order-dependent selection: uninterpreted
+            if len(t) > 5 and t[5].startswith("?"):
+                raise Cannot("a slice whose bounds are " + t[5][1:])
+            ints = all(x is None or (isinstance(x, int) and not isinstance(x, bool)) for x in (lo, hi, step))
+            if ints and step != 0 and (isinstance(v, (frozenset, dict)) or (isinstance(v, tuple) and len(v) == 2 and v[0] == "seq")):
+                return frozenset(self.freeze(x) for x in self.iterate(v)[lo:hi:step])  # selected in the model's one order
+            raise Cannot("an order-dependent selection (slice) of a sequence that is not a model collection")
+        if tag == "arith":
+            a, b = self.val(t[2], env), self.val(t[3], env)
+            if isinstance(a, int) and isinstance(b, int):
+                return a + b if t[1] == "+" else a - b
+            return ("arith", t[1], self.freeze(a), self.freeze(b))  # arithmetic on a position: uninterpreted
         if tag == "len":
             v = t[1]
             if v[0] == "bag":
@@ -323,6 +343,11 @@ class Interp:
             if a is None or b is None:
                 return a is b
             return self.freeze(a) == self.freeze(b)
+        if tag == "raised" and len(c[2]) == 1 and c[2][0].startswith("not "):
+            # left by an exception that is no instance of the named classes
+            if self.salt < 2 or any(self.cond(("raised", c[1], (x,)), env) for x in c[2][0][4:].split("|")):
+                return False
+            return self.oracle("raised", c[1], c[2], self.scope(env))
         if tag == "raised":
             if self.salt < 2:
                 return True  # the first two assignments: every rule is violated
